@@ -281,6 +281,7 @@ def run_property(pid, tier):
             "structural_checks": structural,
             "native_search_thorough_tier": native_search,
             "supporting_obligations_of_other_properties_in_the_same_units": len(supporting),
+            "auxiliary_obligations": [{"id": o["id"], "status": o["status"], "unit": o.get("unit"), "fn": o.get("fn")} for o in supporting if o["id"].startswith("AUX.")],
             "hints_removed_this_run": hints_removed,
             "canary_rejected": canary_ok,
             "failed_clauses_of_other_properties_in_shared_units": other_props_failed,
